@@ -19,10 +19,16 @@ from __future__ import annotations
 import itertools
 import z3
 
-Node = z3.DeclareSort("Node")
+import os as _os
+
+# String view: module names are z3 Strings instead of an uninterpreted sort. Every contract stays well typed (a
+# more specific interpretation of the sort 'Node'); functions that inspect names character-wise ('flagged
+# sites', C14) are verified in this view. Selected per contract with view="string"; see pyvc/cli.py.
+STRING_MODE = _os.environ.get("PYVC_NODE") == "str"
+Node = z3.StringSort() if STRING_MODE else z3.DeclareSort("Node")
 Graph = z3.DeclareSort("Graph")
 
-_opaque = {"Node": Node, "Graph": Graph}
+_opaque = {"Graph": Graph} if STRING_MODE else {"Node": Node, "Graph": Graph}
 _counter = itertools.count()
 
 
@@ -124,7 +130,7 @@ def parse_type(s):
     if s in TYPE_ALIASES:
         return TYPE_ALIASES[s]
     base = {
-        "Bool": ("bool",), "Int": ("int",), "Str": ("str",), "Node": ("node",),
+        "Bool": ("bool",), "Int": ("int",), "Str": ("str",), "Node": (("str",) if STRING_MODE else ("node",)),
         "Graph": ("graph",), "None": ("none",), "Closure": ("closure",), "List": ("list",),
     }
     if s in base:
